@@ -1,3 +1,4 @@
+import codecs
 import csv
 from datetime import datetime
 from typing import List, Optional
@@ -69,8 +70,8 @@ __DEFAULT_FIELDS = [
 
 def read_csv(path: str, encoding='utf-8', delimiter=';') -> WBS:
     raws: List[TaskRaw] = []
-    if encoding.lower() in ('utf-8', 'utf8'):
-        # skip byte-order mark, if any
+    if codecs.lookup(encoding).name == 'utf-8':
+        # skip byte-order mark, if any (whatever alias of UTF-8 the caller used: 'utf8', 'utf_8', 'U8', ...)
         encoding = 'utf-8-sig'
     with open(path, mode='r', encoding=encoding, newline='\n') as input_file:
         csvfile = csv.reader(input_file, delimiter=delimiter)
